@@ -132,6 +132,8 @@ class Cli:
             preamble=self.preamble
         )
         if self.output_file:
+            # Fail on unencodable text (i.e. lone surrogates) before the existing file is truncated
+            output.encode("utf-8")
             with open(self.output_file, "w", encoding="utf-8") as f:
                 f.write(output)
             return f"Output is written to {self.output_file}"
